@@ -13,6 +13,17 @@ ASSUME EveryFamilyHasAProducer
 ASSUME PrintT(<<"MATRIX", Cardinality(AllCmds), "sub-commands", Cardinality(Inputs), "input classes",
                 Cardinality({<<fc, inp, lib>> \in AllCmds \X Inputs \X {"ok", "err"} :
                     FailureClass([Run0(fc[1], fc[2], inp) EXCEPT !.lib = lib])}), "must-fail cells">>)
+\* the filter contract on the shapes the generator uses (near-misses must not match)
+Ch(str) == str      \* tuples of one-character strings are written out literally below
+GlobSanity ==
+    /\ GlobMatch(<<"*", ".", "t", "x", "t">>, <<"a", ".", "t", "x", "t">>)
+    /\ ~GlobMatch(<<"*", ".", "t", "x", "t">>, <<"l", "o", "g", "_", "t", "x", "t">>)
+    /\ ~GlobMatch(<<"*", ".", "t", "x", "t">>, <<"a", ".", "t", "x", "t", "2">>)
+    /\ GlobMatch(<<"d", "a", "*">>, <<"d", "a", "t">>) /\ ~GlobMatch(<<"d", "a", "*">>, <<"m", "d", "a">>)
+    /\ GlobMatch(<<"*", "u", "b", "*">>, <<"s", "u", "b", "\\", "x">>) /\ ~GlobMatch(<<"*", "u", "b", "*">>, <<"s", "u">>)
+    /\ GlobMatch(<<"z", "z">>, <<"a", "z", "z", "b">>) /\ ~GlobMatch(<<"z", "?", "z">>, <<"z", "a", "z">>)
+    /\ GlobMatch(<<"*">>, <<>>) /\ GlobMatch(<<>>, <<"x">>)
+ASSUME GlobSanity
 OnlyKnownDefect == (HasRun /\ ~Truthful(vlast.r, vlast.o)) =>
                    (vlast.r.fam = "mpq" /\ vlast.r.cmd = "validate" /\ vlast.o.says_fail /\ vlast.o.exit = 0)
 =============================================================================
